@@ -318,7 +318,7 @@ Section Statements.
   Definition S_stmt (fuel : nat) : Prop :=
     forall obj sels svc ss afters,
       plan_ty g pick fuel (RObj obj) sels svc = Some (ss, afters) ->
-      flat_ok g obj sels = true -> (obj <> "Query" \/ local_all g pick svc obj sels) ->
+      flat_ok g obj sels = true -> (obj <> "Query" \/ local_all g pick svc obj sels) -> obj <> "Leaf" ->
       forall id pre, pre_ok pre obj id sels ->
       exists kvs fed, RA afters (JObj (pre ++ evs EV ss obj id)) = Some (JObj (pre ++ kvs)) /\
                       post obj id sels fed kvs /\ (local_all g pick svc obj sels -> fed = false).
@@ -336,6 +336,7 @@ Section Statements.
     forall rty subs svc cs cafters,
       plan_ty g pick fuel rty subs svc = Some (cs, cafters) -> subs_ok rty subs -> rty <> RObj "Query" ->
       (forall u ms, rty = RUnion u -> union_members g u = Some ms -> ~ In "Query" ms) ->
+      (rty = RObj "Leaf" -> local_all g pick svc "Leaf" subs) ->
       forall v, vok g rty v -> scalars_ok v ->
       exists x, RA cafters (render_gen K EV cs v) = Some x /\ simv x (render_gen K EV (asubs subs) v).
 
@@ -388,22 +389,23 @@ Section Core.
   Notation RA := (run_afters w g).
 
   Hypothesis pick_sound : forall l s, pick l = Some s -> In s l.
-  Hypothesis Hok : fed_ok g = true.
+  Hypothesis Hok : fed_ok0 g = true.
+  Hypothesis Hplain : plain_ok g = true.
   Hypothesis Hok2 : fed_ok2 g = true.
   Hypothesis Hw : world_ok w g.
   Hypothesis Hsc : forall ty id f ak, scalars_ok (w_value w ty id f ak).
 
   Lemma fed_ok2_parts :
-    (forall ty f rty owners, find_gfield g ty f = Some (rty, owners) -> ty <> "Query" ->
+    (forall ty f rty owners, find_gfield g ty f = Some (rty, owners) -> ty <> "Query" -> ty <> "Leaf" ->
        forall o, In o owners -> In "id" (fkeys_of g ty o)) /\
     (forall ty f rty owners, find_gfield g ty f = Some (rty, owners) -> ty <> "Query" ->
        (f = "id" \/ f = "org") -> rty = RScalar) /\
     K "Query" = false.
   Proof.
     unfold fed_ok2 in Hok2. apply andb_prop in Hok2 as [H1 H2]. split; [|split].
-    - intros ty f rty owners Hf Hq o Ho. apply find_gfield_in in Hf. eapply forallb_forall in H1; [|exact Hf].
+    - intros ty f rty owners Hf Hq Hnl o Ho. apply find_gfield_in in Hf. eapply forallb_forall in H1; [|exact Hf].
       cbv beta iota zeta in H1. apply andb_prop in H1 as [Ha _]. apply orb_prop in Ha as [Ha|Ha].
-      + apply String.eqb_eq in Ha. contradiction.
+      + apply orb_prop in Ha as [Ha|Ha]; apply String.eqb_eq in Ha; contradiction.
       + eapply forallb_forall in Ha; [|exact Ho]. apply existsb_eqb_In in Ha. exact Ha.
     - intros ty f rty owners Hf Hq Hio. apply find_gfield_in in Hf. eapply forallb_forall in H1; [|exact Hf].
       cbv beta iota zeta in H1. apply andb_prop in H1 as [_ Hb].
@@ -456,15 +458,17 @@ Section Core.
       selection into (something similar to) the combined server's value for it *)
   Lemma phase1 : forall fuel, V_stmt w g pick fuel -> forall obj svc id locs planned,
     Forall2 (fun n p => child_plan g pick fuel obj svc n = Some p) locs planned ->
-    forallb (node_ok g (RObj obj)) locs = true -> NoDup (map n_alias locs) ->
+    forallb (node_ok g (RObj obj)) locs = true -> NoDup (map n_alias locs) -> local_all g pick svc obj locs ->
     forall A B, (forall n, In n locs -> lookup (n_alias n) A = None) ->
     exists kvs1,
       RA (List.concat (map snd planned)) (JObj (A ++ evs EV (map fst planned) obj id ++ B)) = Some (JObj (A ++ kvs1 ++ B)) /\
       Forall2 (fun n kv => fst kv = n_alias n /\ simv (snd kv) (nval w g (annot n) obj id)) locs kvs1.
   Proof.
-    intros fuel HV obj svc id locs planned HF. induction HF as [|n p locs planned Hc _ IH]; intros Hok' Hnd A B HA.
+    intros fuel HV obj svc id locs planned HF. induction HF as [|n p locs planned Hc _ IH]; intros Hok' Hnd Hlocal A B HA.
     - exists []. simpl. split; [reflexivity | constructor].
     - simpl in Hok'. apply andb_prop in Hok' as [Hn Hrest]. inversion Hnd as [|? ? Hnotin Hnd']; subst.
+      pose proof (Hlocal _ (or_introl eq_refl)) as Hloc_n.
+      assert (Hlocal' : local_all g pick svc obj locs) by (intros m Hm; apply Hlocal; right; exact Hm).
       destruct n as [al nm args ak dirs hs subs|]; [|discriminate].
       cbn [node_ok] in Hn. apply andb_prop in Hn as [Hn1 Hn3]. apply andb_prop in Hn1 as [Hal Hdirs].
       destruct (alias_ok_parts _ _ Hal) as [Hal1 [Hal2 [Hfed Htn]]].
@@ -490,10 +494,24 @@ Section Core.
           - apply andb_prop in Hn3 as [Hx Hz]. apply andb_prop in Hx as [Hx Hy]. apply andb_prop in Hx as [_ Hx].
             repeat split; auto. destruct (union_members g u) as [ms|]; [|discriminate]. exists ms. auto. }
         assert (Hnq : rty <> RObj "Query").
-        { intros ->. eapply (ok_nothing_returns_query g Hok); eauto. }
+        { intros ->. eapply (ok0_nothing_returns_query g Hok); eauto. }
         assert (Hnm : forall u ms, rty = RUnion u -> union_members g u = Some ms -> ~ In "Query" ms).
-        { intros u ms _ Hu. eapply (ok_no_query_member g Hok); eauto. }
-        destruct (HV rty subs svc cs cafters Ep Hsub Hnq Hnm (w_value w obj id nm ak) (Hw _ _ _ _ _ _ Ef) (Hsc _ _ _ _))
+        { intros u ms _ Hu. eapply (ok0_no_query_member g Hok); eauto. }
+        assert (Hleaf : rty = RObj "Leaf" -> local_all g pick svc "Leaf" subs).
+        { intros ->. destruct (target_of_spec g pick pick_sound _ _ _ _ _ Hloc_n) as [_ [al' [nm' [args' [ak' [dirs' [hs' [subs' [Heq Hcase]]]]]]]]].
+          inversion Heq; subst al' nm' args' ak' dirs' hs' subs'.
+          destruct Hcase as [[Hx _]|[rty' [owners' [Hf' Hown]]]]; [subst nm; discriminate|].
+          rewrite Ef in Hf'. inversion Hf'; subst rty' owners'.
+          destruct Hsub as [_ [Hsok _]].
+          intros m Hm. eapply forallb_forall in Hsok; [|exact Hm].
+          destruct m as [al2 nm2 args2 ak2 dirs2 hs2 subs2|]; [|discriminate]. cbn [node_ok] in Hsok.
+          apply andb_prop in Hsok as [_ Hsok]. unfold target_of.
+          destruct (String.eqb nm2 "__typename"); [reflexivity|].
+          destruct (find_gfield g "Leaf" nm2) as [[rty2 owners2]|] eqn:Ef2; [|discriminate].
+          destruct (plain_fields g Hplain _ _ _ Ef2) as [_ Hnosel].
+          pose proof (plain_served g Hplain _ _ _ _ Ef Hown _ _ _ Ef2) as Hin2.
+          unfold select_service. rewrite Hnosel. apply (proj2 (existsb_eqb_In _ _)) in Hin2. rewrite Hin2. reflexivity. }
+        destruct (HV rty subs svc cs cafters Ep Hsub Hnq Hnm Hleaf (w_value w obj id nm ak) (Hw _ _ _ _ _ _ Ef) (Hsc _ _ _ _))
           as [v' [Hrun Hsim]].
         rewrite evs_cons, ev_field. rewrite (fval_composite _ _ _ _ _ _ cs Ef Hrs Et Hfed).
         rewrite RA_app.
@@ -503,7 +521,7 @@ Section Core.
         rewrite Hrun.
         rewrite set_key_app_right by exact HAal.
         simpl set_key. rewrite String.eqb_refl.
-        destruct (IH Hrest Hnd' (A ++ [(al, v')]) B (HA' v')) as [kvs1 [Hr1 Hf1]].
+        destruct (IH Hrest Hnd' Hlocal' (A ++ [(al, v')]) B (HA' v')) as [kvs1 [Hr1 Hf1]].
         rewrite <- app_assoc in Hr1. simpl in Hr1. rewrite Hr1.
         exists ((al, v') :: kvs1). split; [rewrite <- app_assoc; reflexivity|].
         constructor; auto. split; [reflexivity|]. simpl snd.
@@ -517,7 +535,7 @@ Section Core.
             simpl in Hn3. destruct subs; [reflexivity|discriminate]. }
         subst subs. rewrite evs_cons, ev_field.
         set (v0 := fval_gen w K EV [] obj id nm ak).
-        destruct (IH Hrest Hnd' (A ++ [(al, v0)]) B (HA' v0)) as [kvs1 [Hr1 Hf1]].
+        destruct (IH Hrest Hnd' Hlocal' (A ++ [(al, v0)]) B (HA' v0)) as [kvs1 [Hr1 Hf1]].
         rewrite <- app_assoc in Hr1. simpl in Hr1. simpl app. rewrite Hr1.
         exists ((al, v0) :: kvs1). split; [rewrite <- app_assoc; reflexivity|].
         constructor; auto. split; [reflexivity|]. simpl snd. rewrite nval_annot. unfold asubs. simpl.
@@ -695,14 +713,14 @@ Section Core.
   Lemma other_step : forall fuel, S_stmt w g pick fuel -> forall obj svc sels tagged o p id ks L,
     mapo (target_of g pick obj svc) sels = Some tagged -> flat_ok g obj sels = true ->
     other_plan g pick fuel obj tagged o = Some p ->
-    obj <> "Query" -> In "id" ks -> In "id" (fkeys_of g obj o) ->
+    obj <> "Query" -> obj <> "Leaf" -> In "id" ks -> In "id" (fkeys_of g obj o) ->
     lookup federation_field L = Some (JObj (key_kv K obj id ++ key_entries obj id ks)) ->
     (K obj = true -> lookup "__key" L = Some (JNum id)) ->
     (forall n, In n (sels_for tagged o) -> lookup (n_alias n) L = None) ->
     exists kvs_o, after1 (run_keys g (exec1 w g) p) (p_path p) (JObj L) = Some (JObj (L ++ kvs_o)) /\
                   post w g obj id (sels_for tagged o) false kvs_o.
   Proof.
-    intros fuel HS obj svc sels tagged o p id ks L Ht Hflat Hp Hq Hid Hfk Hfed Hkey Hfresh.
+    intros fuel HS obj svc sels tagged o p id ks L Ht Hflat Hp Hq Hnl Hid Hfk Hfed Hkey Hfresh.
     unfold other_plan in Hp.
     destruct (plan_ty g pick fuel (RObj obj) (sels_for tagged o) o) as [[os oafters]|] eqn:Epl; [|discriminate].
     inversion Hp; subst p. simpl p_path.
@@ -717,7 +735,7 @@ Section Core.
         apply andb_prop in Hno as [Hno _]. apply andb_prop in Hno as [Hal _].
         destruct (alias_ok_parts _ _ Hal) as [_ [H2 _]]. simpl in Hn. congruence.
       - unfold key_kv. destruct (K obj); constructor; [exact I | constructor]. }
-    destruct (HS obj (sels_for tagged o) o os oafters Epl Hflat_o (or_intror Hloc) id _ Hpre) as [kvs_o [fed [Hrun [Hpost Hfedf]]]].
+    destruct (HS obj (sels_for tagged o) o os oafters Epl Hflat_o (or_intror Hloc) Hnl id _ Hpre) as [kvs_o [fed [Hrun [Hpost Hfedf]]]].
     specialize (Hfedf Hloc). subst fed. exists kvs_o. split; [|exact Hpost].
     unfold after1. rewrite extract_keys_nil_obj, Hfed.
     unfold run_keys. cbn [mapo].
@@ -764,7 +782,7 @@ Section Core.
   (** ** all sub-plans for other services *)
   Lemma phase2 : forall fuel, S_stmt w g pick fuel -> forall obj svc sels tagged id ks,
     mapo (target_of g pick obj svc) sels = Some tagged -> flat_ok g obj sels = true ->
-    obj <> "Query" -> In "id" ks ->
+    obj <> "Query" -> obj <> "Leaf" -> In "id" ks ->
     forall others oplans, Forall2 (fun o p => other_plan g pick fuel obj tagged o = Some p) others oplans ->
     NoDup others -> (forall o, In o others -> In "id" (fkeys_of g obj o)) ->
     forall L, lookup federation_field L = Some (JObj (key_kv K obj id ++ key_entries obj id ks)) ->
@@ -773,13 +791,13 @@ Section Core.
     exists exts, RA oplans (JObj L) = Some (JObj (L ++ List.concat exts)) /\
                  Forall2 (fun o kvs => post w g obj id (sels_for tagged o) false kvs) others exts.
   Proof.
-    intros fuel HS obj svc sels tagged id ks Ht Hflat Hq Hid others oplans HF.
+    intros fuel HS obj svc sels tagged id ks Ht Hflat Hq Hnl Hid others oplans HF.
     assert (Hnds : NoDup (map n_alias sels)).
     { unfold flat_ok in Hflat. apply andb_prop in Hflat as [H1 _]. apply nodup_str_NoDup; exact H1. }
     induction HF as [|o p others oplans Hp _ IH]; intros Hnd Hfk L Hfed Hkey Hfresh.
     - exists []. cbn [List.concat]. rewrite RA_nil, app_nil_r. split; [reflexivity | constructor].
     - inversion Hnd as [|? ? Hno Hnd']; subst.
-      destruct (other_step fuel HS obj svc sels tagged o p id ks L Ht Hflat Hp Hq Hid (Hfk o (or_introl eq_refl)) Hfed Hkey
+      destruct (other_step fuel HS obj svc sels tagged o p id ks L Ht Hflat Hp Hq Hnl Hid (Hfk o (or_introl eq_refl)) Hfed Hkey
                   (fun n Hn => Hfresh o n (or_introl eq_refl) Hn)) as [kvs_o [Hstep Hpost]].
       rewrite RA_cons, Hstep.
       destruct (IH Hnd' (fun o' Ho' => Hfk o' (or_intror Ho')) (L ++ kvs_o)) as [exts [Hrun HF2]].
@@ -840,10 +858,10 @@ Section Core.
   Qed.
 
   Lemma others_fkeys : forall obj svc sels tagged o,
-    mapo (target_of g pick obj svc) sels = Some tagged -> obj <> "Query" ->
+    mapo (target_of g pick obj svc) sels = Some tagged -> obj <> "Query" -> obj <> "Leaf" ->
     In o (others_of svc tagged) -> In "id" (fkeys_of g obj o).
   Proof.
-    intros obj svc sels tagged o Ht Hq Hin. pose proof (others_not_svc _ _ _ Hin) as Hne.
+    intros obj svc sels tagged o Ht Hq Hnl Hin. pose proof (others_not_svc _ _ _ Hin) as Hne.
     unfold others_of in Hin. apply (proj1 (sorted_names_In _ _)) in Hin.
     apply in_map_iff in Hin as [[n t] [Hto Hin]]. simpl in Hto. subst t. apply filter_In in Hin as [Hin _].
     assert (Hs : In n (sels_for tagged o)).
@@ -914,14 +932,15 @@ Section Core.
   (** the object level: planObject's split, its key selection and its sub-plans reproduce the selection set *)
   Theorem S_step : forall fuel, V_stmt w g pick fuel -> S_stmt w g pick fuel -> S_stmt w g pick (S fuel).
   Proof.
-    intros fuel HV HS obj sels svc ss afters Hpl Hflat Hloc id pre Hpre.
-    destruct (plan_obj_inv g pick fuel obj sels svc ss afters Hpl) as [tagged [planned [oplans [Ht [Hp [Ho Hcase]]]]]].
+    intros fuel HV HS obj sels svc ss afters Hpln Hflat Hloc Hnl id pre Hpre.
+    destruct (plan_obj_inv g pick fuel obj sels svc ss afters Hpln) as [tagged [planned [oplans [Ht [Hp [Ho Hcase]]]]]].
     pose proof Hflat as Hflat'. unfold flat_ok in Hflat'. apply andb_prop in Hflat' as [Hnd0 Hnok].
     rewrite (filter_included_all obj sels Hnok) in Ht.
     assert (Hnds : NoDup (map n_alias sels)) by (apply nodup_str_NoDup; exact Hnd0).
     pose proof (mapo_Forall2 _ _ _ Hp) as Fp.
     pose proof (forallb_sels_for _ _ _ _ svc _ Ht Hnok) as Hlocs_ok.
     pose proof (sels_for_nodup _ _ _ _ svc Ht Hnds) as Hlocs_nd.
+    pose proof (sels_for_local _ _ _ _ svc Ht) as Hlocs_local.
     destruct Hpre as [[pre' Hpre1] [Hpre2 Hpre3]].
     assert (Hpre_none : forall n, In n sels -> lookup (n_alias n) pre = None).
     { intros n Hn. apply lookup_none_notin. intros Hin. apply Hpre2 in Hin as [Hx _]. apply Hx. apply in_map; exact Hn. }
@@ -929,7 +948,7 @@ Section Core.
     { intros n Hn. apply Hpre_none. apply (sels_for_in _ _ _ _ _ _ Ht Hn). }
     destruct Hcase as [[Hoth [-> ->]]|[Hoth [Hhalf [-> Hfedsel]]]].
     - (* everything stays with this service *)
-      destruct (phase1 fuel HV obj svc id _ _ Fp Hlocs_ok Hlocs_nd pre [] HA) as [kvs1 [Hrun HF1]].
+      destruct (phase1 fuel HV obj svc id _ _ Fp Hlocs_ok Hlocs_nd Hlocs_local pre [] HA) as [kvs1 [Hrun HF1]].
       rewrite !app_nil_r in Hrun. exists kvs1, false. split; [exact Hrun|]. split; [|auto].
       rewrite (others_nil_all _ _ _ _ Ht Hoth) in *.
       destruct (forall2_locs _ _ _ _ HF1 Hnds) as [Hk Hv].
@@ -952,7 +971,7 @@ Section Core.
       set (Kobj := JObj (key_kv K obj id ++ key_entries obj id ks)).
       rewrite evs_app. change (evs EV [key_selection g obj others] obj id) with (EV (key_selection g obj others) obj id ++ []).
       rewrite ev_key_selection. fold ks. fold Kobj. rewrite app_nil_r.
-      destruct (phase1 fuel HV obj svc id _ _ Fp Hlocs_ok Hlocs_nd pre [(federation_field, Kobj)] HA) as [kvs1 [Hrun HF1]].
+      destruct (phase1 fuel HV obj svc id _ _ Fp Hlocs_ok Hlocs_nd Hlocs_local pre [(federation_field, Kobj)] HA) as [kvs1 [Hrun HF1]].
       rewrite RA_app, Hrun.
       destruct (forall2_locs _ _ _ _ HF1 Hlocs_nd) as [Hk1 Hv1].
       pose proof (mapo_Forall2 _ _ _ Ho) as Fo.
@@ -966,7 +985,7 @@ Section Core.
         destruct (node_alias_facts _ _ _ Hnok Hin') as [Hx _]. contradiction. }
       assert (Hfed_pre : lookup federation_field pre = None).
       { apply lookup_none_notin. intros Hin. apply Hpre2 in Hin as [_ Hx]. congruence. }
-      destruct (phase2 fuel HS obj svc sels tagged id ks Ht Hflat Hq Hid others oplans Fo (sorted_names_NoDup _) Hfk
+      destruct (phase2 fuel HS obj svc sels tagged id ks Ht Hflat Hq Hnl Hid others oplans Fo (sorted_names_NoDup _) Hfk
                   (pre ++ kvs1 ++ [(federation_field, Kobj)])) as [exts [Hrun2 HF2]].
       + rewrite !lookup_app, Hfed_pre, Hfed_kvs1. cbn [lookup]. rewrite String.eqb_refl. reflexivity.
       + intros Hk. rewrite Hpre1, <- app_assoc, lookup_app. unfold key_kv. rewrite Hk. reflexivity.
@@ -1250,7 +1269,8 @@ Section Core.
       - unfold pre, pushed, key_kv. apply Forall_app. split.
         + destruct (K t); constructor; [exact I | constructor].
         + destruct (existsb (String.eqb "__typename") (map n_alias body)); constructor; [exact I | constructor]. }
-    destruct (HS t body svc cs_t cafters_t Ept Hflat (or_introl Htq) i pre Hpre) as [kvs [fed [Hrun [Hpost _]]]].
+    assert (Htl : t <> "Leaf") by (intros ->; apply (plain_not_member g Hplain u ms Hu Hin)).
+    destruct (HS t body svc cs_t cafters_t Ept Hflat (or_introl Htq) Htl i pre Hpre) as [kvs [fed [Hrun [Hpost _]]]].
     assert (Htn_init : lookup "__typename" (pre ++ evs EV cs_t t i) = Some (JStr t)).
     { unfold pre, pushed. rewrite <- app_assoc, !lookup_app.
       assert (Hk : lookup "__typename" (key_kv K t i) = None) by (unfold key_kv; destruct (K t); reflexivity).
@@ -1278,13 +1298,66 @@ Section Core.
   Qed.
 
   (** values: null, lists, objects (the object statement) and union members (the union statement) *)
+  (** the plain object: the entries of its rendering depend on (alias, name) of the selections only *)
+  Definition al_nm (n : node) : string * string :=
+    match n with NField al nm _ _ _ _ _ => (al, nm) | NFrag on _ _ => (on, "") end.
+
+  Lemma leaf_obj_ext : forall val tag a b, map al_nm a = map al_nm b -> leaf_obj val tag a = leaf_obj val tag b.
+  Proof.
+    intros val tag a. induction a as [|x a IH]; intros [|y b] H; simpl in H; try discriminate; [reflexivity|].
+    inversion H as [[Hxy Hrest]]. unfold leaf_obj in *. cbn [map List.concat]. f_equal. f_equal.
+    - destruct x as [al nm ? ? ? ? ?|]; destruct y as [al' nm' ? ? ? ? ?|]; simpl in Hxy; inversion Hxy; subst; try reflexivity.
+    - specialize (IH b Hrest). inversion IH. reflexivity.
+  Qed.
+
+  Lemma leaf_obj_simv : forall val tag sels, (forall n, In n sels -> n_alias n <> federation_field) ->
+    simv (leaf_obj val tag sels) (leaf_obj val tag sels).
+  Proof.
+    intros val tag sels Hnf. unfold leaf_obj. constructor.
+    - intros k. destruct (lookup k _) as [v|] eqn:El; [|constructor]. constructor. apply simv_scalar_refl.
+      apply lookup_in in El. apply in_concat in El as [l [Hl Hin]]. apply in_map_iff in Hl as [n [<- Hn]].
+      destruct n as [al nm ? ? ? ? ?|]; [|contradiction].
+      destruct (String.eqb nm "val"); [destruct Hin as [He|[]]; inversion He; exact I|].
+      destruct (String.eqb nm "tag"); [destruct Hin as [He|[]]; inversion He; exact I|].
+      destruct (String.eqb nm "__typename"); [destruct Hin as [He|[]]; inversion He; exact I | contradiction].
+    - apply lookup_none_notin. intros Hin. apply in_map_iff in Hin as [[k v] [Hk Hin]]. simpl in Hk. subst k.
+      apply in_concat in Hin as [l [Hl Hin]]. apply in_map_iff in Hl as [n [<- Hn]].
+      destruct n as [al nm ? ? ? ? ?|]; [|contradiction]. specialize (Hnf _ Hn). simpl in Hnf.
+      destruct (String.eqb nm "val"); [destruct Hin as [He|[]]; inversion He; congruence|].
+      destruct (String.eqb nm "tag"); [destruct Hin as [He|[]]; inversion He; congruence|].
+      destruct (String.eqb nm "__typename"); [destruct Hin as [He|[]]; inversion He; congruence | contradiction].
+  Qed.
+
+  (** planObject on the plain object, all of whose fields the service serves: the selections, no sub-plan *)
+  Lemma leaf_plan : forall fuel subs svc cs cafters,
+    plan_ty g pick fuel (RObj "Leaf") subs svc = Some (cs, cafters) ->
+    forallb (node_ok g (RObj "Leaf")) subs = true -> local_all g pick svc "Leaf" subs ->
+    cafters = [] /\ map al_nm cs = map al_nm subs.
+  Proof.
+    intros fuel subs svc cs cafters Hpl Hok' Hloc. destruct fuel as [|fuel]; [discriminate|].
+    destruct (plan_obj_inv g pick fuel "Leaf" subs svc cs cafters Hpl) as [tagged [planned [oplans [Ht [Hp [Ho Hcase]]]]]].
+    rewrite (filter_included_all "Leaf" subs Hok') in Ht.
+    destruct (local_all_split _ _ _ _ Ht Hloc) as [Hoth Hsf]. rewrite Hsf in Hp.
+    destruct Hcase as [[_ [-> ->]]|[Hne _]]; [|contradiction].
+    apply mapo_Forall2 in Hp. clear -Hp Hok' Hplain.
+    induction Hp as [|n p subs planned Hn _ IH]; [split; reflexivity|].
+    simpl in Hok'. apply andb_prop in Hok' as [Hn1 Hrest]. destruct (IH Hrest) as [I1 I2].
+    destruct n as [al nm args ak dirs hs ss|]; [|discriminate]. cbn [node_ok] in Hn1.
+    apply andb_prop in Hn1 as [_ Hn1].
+    assert (Hhs : hs = false).
+    { destruct (String.eqb nm "__typename"); [apply andb_prop in Hn1 as [Hx _]; destruct hs; [discriminate|reflexivity]|].
+      destruct (find_gfield g "Leaf" nm) as [[rty owners]|] eqn:Ef; [|discriminate].
+      destruct (plain_fields g Hplain _ _ _ Ef) as [-> _]. apply andb_prop in Hn1 as [Hx _]. destruct hs; [discriminate|reflexivity]. }
+    subst hs. cbn [child_plan] in Hn. inversion Hn; subst p. simpl. rewrite I1, I2. split; reflexivity.
+  Qed.
+
   Theorem V_from : forall fuel, S_stmt w g pick fuel -> U_stmt w g pick fuel -> V_stmt w g pick fuel.
   Proof.
-    intros fuel HS HU rty subs svc cs cafters Hpl Hsub Hnq Hnqu v. induction v using aval_ind'; intros Hv Hsv.
+    intros fuel HS HU rty subs svc cs cafters Hpl Hsub Hnq Hnqu Hleaf v. induction v using aval_ind'; intros Hv Hsv.
     - exists JNull. split; [apply RA_null | constructor].
     - destruct rty; simpl in Hv; try contradiction. destruct fuel; discriminate.
     - (* an object *)
-      destruct rty as [|o|u]; simpl in Hv; try contradiction; [destruct fuel; discriminate|]. subst t.
+      destruct rty as [|o|u]; simpl in Hv; try contradiction; [destruct fuel; discriminate|]. destruct Hv as [-> Hol].
       destruct Hsub as [Hnd [Hok' _]].
       assert (Hoq : o <> "Query") by (intros ->; apply Hnq; reflexivity).
       assert (Hflat : flat_ok g o subs = true) by (unfold flat_ok; rewrite Hnd, Hok'; reflexivity).
@@ -1294,7 +1367,7 @@ Section Core.
           intros Hi. apply in_map_iff in Hi as [n [Hn Hi]]. destruct (node_alias_facts _ _ _ Hok' Hi) as [_ [H2 _]].
           simpl in Hn. congruence.
         - unfold key_kv. destruct (K o); constructor; [exact I | constructor]. }
-      destruct (HS o subs svc cs cafters Hpl Hflat (or_introl Hoq) i _ Hpre) as [kvs [fed [Hrun [Hpost _]]]].
+      destruct (HS o subs svc cs cafters Hpl Hflat (or_introl Hoq) Hol i _ Hpre) as [kvs [fed [Hrun [Hpost _]]]].
       cbn [render_gen]. unfold obj_gen. rewrite Hrun. eexists. split; [reflexivity|].
       unfold asubs. rewrite (has_frag_fields _ (all_fields_ok g _ _ Hok')).
       destruct Hpre as [_ [Hp2 Hp3]].
@@ -1321,7 +1394,16 @@ Section Core.
         destruct (IH H3 H5 H7) as [ys [A B]]. destruct (H2 H6 H4) as [y [Hy Hs]].
         exists (y :: ys). split; constructor; auto. }
       destruct Hex as [ys [A B]]. cbn [render_gen]. exists (JArr ys). split; [apply RA_arr; exact A | constructor; exact B].
-    - destruct rty; simpl in Hv; try contradiction. destruct fuel; discriminate.
+    - (* the plain object: every selection stays with the service, no sub-plan below it *)
+      destruct rty as [|o|u]; simpl in Hv; try contradiction; [destruct fuel; discriminate|]. subst o.
+      destruct Hsub as [Hnd [Hok' _]]. specialize (Hleaf eq_refl).
+      destruct (leaf_plan fuel subs svc cs cafters Hpl Hok' Hleaf) as [-> Hcs].
+      rewrite RA_nil. eexists. split; [reflexivity|]. cbn [render_gen].
+      unfold asubs. rewrite (has_frag_fields _ (all_fields_ok g _ _ Hok')).
+      rewrite (leaf_obj_ext v t cs (map annot subs)).
+      + apply leaf_obj_simv. intros n Hn. apply in_map_iff in Hn as [m [<- Hm]]. rewrite annot_alias.
+        apply (node_alias_facts _ _ _ Hok' Hm).
+      + rewrite Hcs. rewrite map_map. apply map_ext. intros [al nm args ak dirs hs ss|on dirs ss]; reflexivity.
   Qed.
 
   Theorem plan_sem : forall fuel, S_stmt w g pick fuel /\ U_stmt w g pick fuel /\ V_stmt w g pick fuel.
@@ -1338,7 +1420,7 @@ Section Core.
   Lemma owner_not_coord : forall obj nm rty owners s,
     find_gfield g obj nm = Some (rty, owners) -> In s owners -> s <> coordinator.
   Proof.
-    intros obj nm rty owners s Hf Hin ->. pose proof (ok_coordinator g Hok obj nm) as H. unfold owns in H. rewrite Hf in H.
+    intros obj nm rty owners s Hf Hin ->. pose proof (ok0_coordinator g Hok obj nm) as H. unfold owns in H. rewrite Hf in H.
     apply (proj2 (existsb_eqb_In _ _)) in Hin. congruence.
   Qed.
 
@@ -1454,7 +1536,8 @@ Section Core.
       pose proof (sels_for_local _ _ _ _ o Ht) as Hloc.
       assert (Hpre : pre_ok g [] "Query" 0%Z (sels_for tagged o)).
       { split; [exists []; rewrite key_kv_query; reflexivity|]. split; [intros k [] | constructor]. }
-      destruct (HS "Query" (sels_for tagged o) o os oafters Epl Hflat_o (or_intror Hloc) 0%Z [] Hpre) as [kvs_o [fed [Hrun [Hpost Hfedf]]]].
+      assert (Hql : "Query" <> "Leaf") by discriminate.
+      destruct (HS "Query" (sels_for tagged o) o os oafters Epl Hflat_o (or_intror Hloc) Hql 0%Z [] Hpre) as [kvs_o [fed [Hrun [Hpost Hfedf]]]].
       specialize (Hfedf Hloc). subst fed. cbn [app] in Hrun.
       assert (Hoc : o <> coordinator) by (apply Hnc; left; reflexivity).
       assert (Hex : exec_plan w g true (Plan [] o "Query" os oafters) None = Some [JObj kvs_o]).
